@@ -2254,8 +2254,13 @@ class ktensor:
         """
         modes = parse_one_d(modes)
         assert np.all(
-            modes[:-1] <= modes[1:]
-        ), "Modes must be sorted in ascending order"
+            modes[:-1] < modes[1:]
+        ), "Modes must be sorted in ascending order (each mode at most once)"
+        # The data are a vector (a row or column is flattened); integer-typed data
+        # would make integer weights / factors that later in-place scaling truncates
+        data = parse_one_d(data)
+        if data.dtype.kind in "iub":
+            data = data.astype(float)
 
         # Check the modes and the amount of data before changing anything
         for k in modes:
